@@ -1,0 +1,16 @@
+//go:build verif
+
+package kadm
+
+// This file exists only in builds with the `verif` tag. GroupMemberAssignment
+// and GroupMemberMetadata wrap a private field, so an external verification
+// harness cannot build a DescribedGroup in-process without these two
+// constructors. Nothing here changes library behavior.
+
+// VerifGroupMemberAssignment wraps i (a *kmsg.ConsumerMemberAssignment,
+// *kmsg.ConnectMemberAssignment or []byte) exactly as DescribeGroups does.
+func VerifGroupMemberAssignment(i any) GroupMemberAssignment { return GroupMemberAssignment{i} }
+
+// VerifGroupMemberMetadata wraps i (a *kmsg.ConsumerMemberMetadata,
+// *kmsg.ConnectMemberMetadata or []byte) exactly as DescribeGroups does.
+func VerifGroupMemberMetadata(i any) GroupMemberMetadata { return GroupMemberMetadata{i} }
